@@ -152,8 +152,9 @@ def repo_sources():
 
 def run_extractor():
     os.makedirs(GEN, exist_ok=True)
-    out_rs = os.path.join(GEN, "extracted.rs")
-    meta = os.path.join(GEN, "extract.meta.json")
+    tag = os.environ.get("VX_TAG", "")      # development runs next to a running check use their own intermediate files
+    out_rs = os.path.join(GEN, "extracted%s.rs" % tag)
+    meta = os.path.join(GEN, "extract%s.meta.json" % tag)
     if not os.path.exists(EXTRACTOR):
         raise Undecided("extractor not built: run MANIFEST.setup_cmd")
     p = subprocess.run([EXTRACTOR, os.path.join(REPO, "src"), out_rs, meta], capture_output=True, text=True)
@@ -225,6 +226,7 @@ class Assembled:
         self.clause_at = {}      # line no (1-based) -> (fnkey, label, kind)
         self.fn_ranges = []      # (start, end, fnkey)
         self.fn_bodies = {}      # fnkey -> body text (for the callee scan)
+        self.lost_contracts = []   # contract keys without a function in the tree
         self.calls_uncontracted = {}   # fnkey -> [uncontracted callee keys it mentions]
         self.contracted = []     # fn keys with a contract
         self.uncontracted = []   # fn keys without
@@ -240,7 +242,7 @@ class Assembled:
         return len(self.lines) + 1
 
 
-def assemble(vacuity=False, only_files=None, extra_theorems=True, extracted=None, force_external=None):
+def assemble(vacuity=False, only_files=None, extra_theorems=True, extracted=None, force_external=None, drop_contract=None):
     """force_external: {fn key: reason} — functions whose body made the generated text fail to type-check: emitted without body,
     contract assumed, reported as refused (graceful degradation instead of a global UNDECIDED)"""
     out_rs, meta = extracted if extracted is not None else run_extractor()
@@ -252,6 +254,9 @@ def assemble(vacuity=False, only_files=None, extra_theorems=True, extracted=None
     A.refused = {k: v for k, v in (meta.get("refused_fns") or {}).items()}
     for k, v in force_external.items():
         A.refused.setdefault(k, []).append(v)
+    drop_contract = dict(drop_contract or {})
+    for k, v in drop_contract.items():
+        A.refused.setdefault(k, []).append("contract no longer type-checks against the function's signature / types: " + v[:300])
     A.add("// GENERATED by bin/vxlib.py from /repo/src (rules R1-R14, DESIGN.md 2.2) — do not edit")
     A.add("#![allow(unused_imports, dead_code, unused_variables, unused_mut, unused_parens, non_snake_case, unreachable_code, unused_braces, unreachable_patterns, type_alias_bounds)]")
     A.add("use vstd::prelude::*;")
@@ -283,6 +288,12 @@ def assemble(vacuity=False, only_files=None, extra_theorems=True, extracted=None
         the copy must FAIL verification.  Callers keep calling the original, so a twin never contaminates its callers."""
         text = "\n".join(block_lines)
         c = fns.get(key)
+        if key in drop_contract:
+            if dup:
+                return
+            if c is not None:
+                used_fn_contracts.add(key)
+            c = None
         if dup:
             if c is None or c.external or not c.ensures:
                 return
@@ -327,6 +338,8 @@ def assemble(vacuity=False, only_files=None, extra_theorems=True, extracted=None
             body_rest = "\n    unimplemented!()\n}"
             if c is not None:
                 used_fn_contracts.add(key)
+            if key in drop_contract:
+                A.uncontracted.append(key)     # its callers' failures are "needs contract"
             A.add("#[verifier::external_body] /*REFUSED: body outside the extraction rules or not type-checkable; contract assumed*/")
         elif dup:
             pass
@@ -647,9 +660,8 @@ def assemble(vacuity=False, only_files=None, extra_theorems=True, extracted=None
             if fk != uk and any(re.search(pt, body) for pt in pats):
                 A.calls_uncontracted.setdefault(fk, []).append(uk)
     if only_files is None:
-        missing = [k for k in fns if k not in used_fn_contracts]
-        if missing:
-            raise Undecided("LOST-ANCHOR: contracts without a function in /repo: " + ", ".join(missing))
+        # a contract whose function no longer exists (helper removed / renamed): only the properties that name it become undecided
+        A.lost_contracts = [k for k in fns if k not in used_fn_contracts]
         missingl = [k for k in loops if k not in used_loops]
         if missingl:
             raise Undecided("LOST-ANCHOR: loop contracts without a loop: " + str(missingl))
